@@ -11,6 +11,7 @@ CHUNK = 'yarel/src/chunk.rs'
 STACK = 'yarel/src/stack.rs'
 UTILS = 'yarel/src/utils.rs'
 SCAN = 'yarel/src/scanner.rs'
+CORE_YL = 'yarel/src/core.yl'
 
 MUTANTS = [
     # ---- C01 ----------------------------------------------------------------------------------------
@@ -607,9 +608,29 @@ fn string_from_utf8''')]},
      'edits': [(COMP, 'self.take_attribute("derive", 1);', 'self.take_attribute("derive", 0);')]},
     {'name': 'L5 line narrowed to 16 bits on the way to the chunk', 'prop': 'C17', 'expect': 'L5 / emit_byte',
      'edits': [(COMP, "        let line = self.previous.line as i32;", "        let line = self.previous.line as u16 as i32;")]},
+    # ---- C18 Q8: the core source (class_store::CORE_SOURCE) --------------------------------------------------------------
+    {'name': 'Q8a map hands the receiver itself to the adapter', 'prop': 'C18', 'expect': 'Q8a / MapIter.next / self.iterable.next()',
+     'edits': [(CORE_YL, "return MapIter.new(self.iter(), f);", "return MapIter.new(self, f);")]},
+    {'name': 'Q8b MapIter.next asks the wrapped iterator for an iterator again', 'prop': 'C18', 'expect': 'Q8b / MapIter.next / self.iterable.iter()',
+     'edits': [(CORE_YL, "        var next = self.iterable.next();\n        if next.derives(StopIter) {", "        var next = self.iterable.iter().next();\n        if next.derives(StopIter) {")]},
+    {'name': 'Q8c MapIter.next applies the function to the end marker', 'prop': 'C18', 'expect': 'Q8c / MapIter.next / self.func(next)',
+     'edits': [(CORE_YL, "        if next.derives(StopIter) {\n            return next;\n        }\n        return self.func(next);", "        return self.func(next);")]},
+    {'name': 'Q8c FilterIter.next tests the predicate before the end marker', 'prop': 'C18', 'expect': 'Q8c / FilterIter.next / self.predicate(next)',
+     'edits': [(CORE_YL, "while !next.derives(StopIter) && !self.predicate(next) {", "while !self.predicate(next) && !next.derives(StopIter) {")]},
+    {'name': 'Q8d FilterIter.next fetches twice per round', 'prop': 'C18', 'expect': 'Q8d / FilterIter.next / next',
+     'edits': [(CORE_YL, "            next = self.iterable.next();\n        }\n        return next;", "            next = self.iterable.next();\n            next = self.iterable.next();\n        }\n        return next;")]},
+    {'name': 'Q8f FilterIter.iter answers a new adapter', 'prop': 'C18', 'expect': 'Q8f / FilterIter / iter',
+     'edits': [(CORE_YL, "        self.predicate = predicate;\n    }\n\n    fn iter(self) {\n        return self;", "        self.predicate = predicate;\n    }\n\n    fn iter(self) {\n        return FilterIter.new(self.iterable, self.predicate);")]},
 ]
 
 BENIGN = [
+    {'name': 'Q8 map takes the iterator into a local first; the filter loop is written with an if inside while true', 'prop': 'C18',
+     'edits': [(CORE_YL, "return MapIter.new(self.iter(), f);", "var it = self.iter();\n        return MapIter.new(it, f);"),
+               (CORE_YL, "        var next = self.iterable.next();\n        while !next.derives(StopIter) && !self.predicate(next) {\n            next = self.iterable.next();\n        }\n        return next;",
+                "        while true {\n            var next = self.iterable.next();\n            if next.derives(StopIter) {\n                return next;\n            }\n            if self.predicate(next) {\n                return next;\n            }\n        }")]},
+    {'name': 'Q8 the adapter constructors call iter() themselves', 'prop': 'C18',
+     'edits': [(CORE_YL, "return MapIter.new(self.iter(), f);", "return MapIter.new(self, f);"),
+               (CORE_YL, "        self.iterable = iterable;\n        self.func = func;", "        self.iterable = iterable.iter();\n        self.func = func;")]},
     {'name': 'enclosing-method search written as a match on the kind', 'prop': 'C07',
      'edits': [(COMP, ".find(|c| c.kind != FunctionKind::Function)", ".find(|c| matches!(c.kind, FunctionKind::Method | FunctionKind::Initialiser | FunctionKind::StaticMethod | FunctionKind::Script))")]},
     {'name': 'tail of return_impl moved verbatim into a new private helper', 'prop': 'C08',
